@@ -89,7 +89,7 @@ META['C18'] = dict(
 META['C20'] = dict(
   text=("Kernel-checked: empty code with DIRTY => stop, exiting, exit = last value (graceful_end_detected); code ending outside input handling sets TERMINATE; a fresh engine on a code-less stored session starts with MOVE <root> (restart_injects_entry); "
         "TERMINATE blocks every later run (from C06, for all programs); unwinding at a graceful end from ANY depth: reset succeeds and leaves the empty path, exactly the base cache scope, TERMINATE cleared and every flag other than TERMINATE/DIRTY (all client flags) unchanged "
-        "(engReset_unwinds, by induction over the depth, under one-scope-per-level), and a successful Flush of an ended session leaves exactly that (flush_state, flush_unwinds); a blocked session stays silent also with a first function (blocked_session_first_is_silent, since fix 5c54718). That the session is marked ended exactly at a graceful end is graceful_end_detected plus correspondence and the direct oracle on stored ExecPath/Flags/Cache/LastValue."),
+        "(engReset_unwinds, by induction over the depth, under one-scope-per-level), and a successful Flush of an ended session leaves exactly that (flush_state, flush_unwinds); a blocked session stays silent also with a first function (blocked_session_first_is_silent, since fix 5c54718); the exit value is taken from the cache and the unwinding never brings one back (graceful_end_takes_last, engReset_last, flush_end_last). That the session is marked ended exactly at a graceful end is graceful_end_detected plus correspondence and the direct oracle on stored ExecPath/Flags/Cache/LastValue."),
   note=_ENG_NOTE + "Open finding C20-blocked-request-renders-after-failed-request (a request that failed after TERMINATE was set leaves the page-pending flag stored) is replayed every run.")
 
 
@@ -103,7 +103,7 @@ META['C10'] = dict(
 META['C11'] = dict(
   text=("Kernel-checked: the storage key is injective on (type, session, key) for dot-free session ids both empty or both non-empty (storageKey_injective_on, via append_sep_inj), the type byte alone separates data types, hence isolation of reads from writes elsewhere on the memory map "
         "(mem_isolation; the pg wrapper uses the same keys), and the fs primary names are injective. Outside that domain the property is false: three kernel-evaluated negation witnesses (dot collision, empty-session collision, fs legacy name drops the type byte), "
-        "two open known findings replayed on mem, fs and pg-fake. Listing: every row the Postgres Dump hands out is a row of the table whose storage key starts with the storage key of (current type, session, requested prefix), so records of other types or sessions are never listed (pg_dump_confined, pg_dump_same_type; since fix 32ead21 - before it the listing ran on into higher data types). Oracle: after every write every read, and every listed entry of fs and pg Dump, is checked against a reference keyed by exact coordinates over an adversarial alphabet (dots, type characters, language-like suffixes, empty session, keys crafted to spell another session's file name)."),
+        "two open known findings replayed on mem, fs and pg-fake. Listing: every row the Postgres Dump hands out is a row of the table whose storage key starts with the storage key of (current type, session, requested prefix), so records of other types or sessions are never listed (pg_dump_confined, pg_dump_same_type; since fix 32ead21 - before it the listing ran on into higher data types); the filesystem listing only shows files whose names decode in the current session under the requested prefix and type, with the value a Get returns (fs_dump_confined). Oracle: after every write every read, and every listed entry of fs and pg Dump, is checked against a reference keyed by exact coordinates over an adversarial alphabet (dots, type characters, language-like suffixes, empty session, keys crafted to spell another session's file name)."),
   note=_DB_NOTE)
 
 META['C13'] = dict(
